@@ -363,3 +363,89 @@ Example C12_generated_nonvacuous :
   nth 3 (snd (gen_srun raw (map (gen_new 0 (mkG 0 0)) [5; 5]) ops)) ONone = OInt 656399794176 /\
   nth 6 (snd (gen_srun raw (map (gen_new 0 (mkG 0 0)) [5; 5]) ops)) ONone = OInt 656399794176.
 Proof. cbv zeta. vm_compute. repeat split. Qed.
+
+(* ---------------------------------------------------------------------- *)
+(* StreamInformation / StreamSeedInformation: the named streams a model is given
+   (Streams/Info.v: stream objects are indices of a store, an information object
+   maps names to indices).  Every information object created with the documented
+   default (no argument: "default" = MersenneTwister(10)) gets a stream object of
+   its OWN; hence, by the theorems above, the default streams of two models replay
+   the same sequence and do not disturb each other.  The generated part: the
+   bodies of StreamInformation.__init__ / add_stream / get_stream and
+   StreamSeedInformation.__init__ AND the default value of their parameter as the
+   source text has it (a default is evaluated once, at definition time: the
+   translator accepts the immutable None only). *)
+From PV Require Import Streams.Info Streams.InfoProofs.
+Import Inf InfoAgree.
+
+Theorem C12_information_objects_hold_streams_of_their_own :
+  forall st : list stream,
+  let '(st1, r1) := info_init st SNone in
+  let '(st2, r2) := info_init st1 SNone in
+  exists d1 d2 i j, r1 = IVal d1 /\ r2 = IVal d2 /\
+    info_stream d1 (KStr default_name) = IVal i /\ info_stream d2 (KStr default_name) = IVal j /\
+    i <> j /\ nth_error st2 i = Some (fresh default_seed) /\ nth_error st2 j = Some (fresh default_seed) /\
+    (forall k m, nth_error st k = Some m -> nth_error st2 k = Some m).
+Proof. exact two_default_infos_hold_distinct_fresh_streams. Qed.
+Print Assumptions C12_information_objects_hold_streams_of_their_own.
+
+Theorem C12_default_streams_of_two_information_objects_are_twins :
+  forall (raw : Z -> nat -> Z) (nint : Z -> Z -> Z -> out) (st : list stream) (ops : list (nat * sop)),
+  let st2 := fst (info_init (fst (info_init st SNone)) SNone) in
+  let i := length st in
+  let j := S (length st) in
+  proj i ops = proj j ops -> local_only (proj i ops) = true ->
+  sel i ops (snd (srun raw nint st2 ops)) = sel j ops (snd (srun raw nint st2 ops)).
+Proof. exact default_streams_of_two_infos_are_twins. Qed.
+Print Assumptions C12_default_streams_of_two_information_objects_are_twins.
+
+Theorem C12_default_streams_of_two_information_objects_are_independent :
+  forall (raw : Z -> nat -> Z) (nint : Z -> Z -> Z -> out) (st : list stream) (ops : list (nat * sop)),
+  let st2 := fst (info_init (fst (info_init st SNone)) SNone) in
+  forall i, (i = length st \/ i = S (length st)) -> local_only (proj i ops) = true ->
+  sel i ops (snd (srun raw nint st2 ops)) = snd (run raw nint (fresh default_seed) (proj i ops)).
+Proof. exact default_streams_of_two_infos_are_independent. Qed.
+Print Assumptions C12_default_streams_of_two_information_objects_are_independent.
+
+Theorem C12_information_add_then_get :
+  forall (d : info) (n : name) (i : nat), info_stream (fst (info_add d (KStr n) (SObj i))) (KStr n) = IVal i.
+Proof. exact add_then_get. Qed.
+Print Assumptions C12_information_add_then_get.
+
+Theorem C12_generated_information_model_is_the_proved_model :
+  (gen_StreamInformation___init____default_default_stream = SNone /\
+   gen_StreamSeedInformation___init____default_default_stream = SNone) /\
+  (forall clock g0 g1 w s0 a,
+     let '((w', s'), r) := gen_StreamInformation___init__ clock g0 g1 w s0 a in
+     match info_init w a with
+     | (w2, IVal d) => w' = w2 /\ i_streams s' = d /\ r = Ret tt
+     | (w2, IRaise e) => w' = w2 /\ r = Exc e
+     end) /\
+  (forall w s k a,
+     let '((w', s'), r) := gen_StreamInformation_add_stream w s k a in
+     w' = w /\ (i_streams s', ires_of r) = info_add (i_streams s) k a) /\
+  (forall w s k,
+     let '((w', s'), r) := gen_StreamInformation_get_stream w s k in
+     w' = w /\ s' = s /\ ires_of r = info_stream (i_streams s) k) /\
+  (forall clock g0 g1 w s0 a,
+     let '((w', s'), r) := gen_StreamSeedInformation___init__ clock g0 g1 w s0 a in
+     match sinfo_init w a with
+     | (w2, IVal si) => w' = w2 /\ mkSI (i_streams (sis_base s')) (sis_seeds s') = si /\ r = Ret tt
+     | (w2, IRaise e) => w' = w2 /\ r = Exc e
+     end).
+Proof. exact info_generated_agree. Qed.
+Print Assumptions C12_generated_information_model_is_the_proved_model.
+
+(* StreamInformation() twice, as the source text defines constructor and default: two different stream
+   objects, each a fresh stream with seed 10, in the store the twin / independence theorems above are about *)
+Theorem C12_generated_default_information_objects_do_not_share_a_stream :
+  forall clock g0 g1 clock' g0' g1' (w : list stream),
+  let '((w1, s1), _) := gen_new_info clock g0 g1 w in
+  let '((w2, s2), _) := gen_new_info clock' g0' g1' w1 in
+  exists i j,
+    snd (gen_StreamInformation_get_stream w2 s1 (KStr default_name)) = Ret i /\
+    snd (gen_StreamInformation_get_stream w2 s2 (KStr default_name)) = Ret j /\
+    i <> j /\ nth_error w2 i = Some (fresh default_seed) /\ nth_error w2 j = Some (fresh default_seed) /\
+    w2 = fst (info_init (fst (info_init w SNone)) SNone).
+Proof. exact generated_default_infos_hold_distinct_fresh_streams. Qed.
+Print Assumptions C12_generated_default_information_objects_do_not_share_a_stream.
